@@ -83,6 +83,9 @@ type Evidence struct {
 type Check struct {
 	ID      string
 	Tier    string
+	// ReportTier: the tier the command was asked for (Tier is the one whose bounds are explored;
+	// they differ for a thorough run of a check whose deeper bounds are not registered)
+	ReportTier string
 	Seed    int64
 	R       *Runner
 	Known   *KnownFile
@@ -126,7 +129,7 @@ type caseMeta struct {
 }
 
 func newCheck(id, tier string, seed int64) *Check {
-	return &Check{ID: id, Tier: tier, Seed: seed, T0: time.Now(), Level: "model_checking",
+	return &Check{ID: id, Tier: tier, ReportTier: tier, Seed: seed, T0: time.Now(), Level: "model_checking",
 		findings: map[string]*Finding{}, Inconclusive: map[string]int64{}, Covers: map[string]int64{},
 		JobTags: map[string]int64{}, Extra: map[string]interface{}{}, funcs: map[string]int64{}, Workers: 16}
 }
@@ -462,7 +465,7 @@ func (c *Check) Finish() int {
 	}
 	c.writeEvidence(wall, violations, "")
 	fmt.Printf("%s %s: %d path(s), %d fork(s), %d solver queries (%.1fs), %d domain decisions, %d native replays agree, %d inconclusive, %d violation signature(s), %.1fs\n",
-		c.ID, c.Tier, c.Stats.Paths, c.Stats.Forks, c.Stats.Z3Queries, c.Stats.Z3Seconds, c.Stats.DomQueries, c.Validated, c.inconclusiveTotal(), violations, wall)
+		c.ID, c.ReportTier, c.Stats.Paths, c.Stats.Forks, c.Stats.Z3Queries, c.Stats.Z3Seconds, c.Stats.DomQueries, c.Validated, c.inconclusiveTotal(), violations, wall)
 	if violations > 0 {
 		return 1
 	}
@@ -558,7 +561,7 @@ func (c *Check) writeEvidence(wall float64, violations int, note string) {
 		cov["checker_cmd"] = strings.Join([]string{c.R.Eng.SolverCmd, "-in"}, " ")
 		cov["trusted_base"] = []string{"go/packages + go/ssa v0.29.0 front end", "symgo interpreter semantics for the SSA instruction kinds and Go run-time checks", "models of the std functions listed under assumptions", c.R.Eng.SolverCmd, "the harness/oracle code in /verif/harness"}
 	}
-	ev := Evidence{PropertyID: c.ID, Tier: c.Tier, Seed: c.Seed, Level: c.Level, Coverage: cov, Assumptions: c.Assumptions, WallS: wall, Violations: violations}
+	ev := Evidence{PropertyID: c.ID, Tier: c.ReportTier, Seed: c.Seed, Level: c.Level, Coverage: cov, Assumptions: c.Assumptions, WallS: wall, Violations: violations}
 	if ev.Assumptions == nil {
 		ev.Assumptions = []string{}
 	}
